@@ -20,6 +20,16 @@ Proof.
     simpl in Hh. destruct cs; [reflexivity | simpl in Hh; lia].
 Qed.
 
+Lemma zero_no_cells W v : wf_view v -> v_ncols v = 0 -> cells_ok W v.
+Proof.
+  intros Hwf E. destruct (zero_rows v Hwf E) as [Hrows Hhdr].
+  unfold cells_ok, all_cells, all_rows.
+  assert (Eb : concat (body_rows v) = []).
+  { unfold body_rows. induction Hrows as [|r rows Hr _ IH]; [reflexivity|].
+    destruct Hr as [-> | ->]; cbn [flat_map app concat]; exact IH. }
+  rewrite concat_app, Eb, app_nil_r. destruct Hhdr as [-> | ->]; constructor.
+Qed.
+
 Section Zero.
   Variable W : bytes -> nat.
   Variable d : decoration.
@@ -28,81 +38,92 @@ Section Zero.
   Lemma zero_template l h c r : exists x, common_template_line d [] l h c r = Ok x.
   Proof. unfold common_template_line. destruct (d_boxless d); cbn; eauto. Qed.
 
-  Lemma zero_block dv : div3_ok dv -> exists x, rendered_block dv [] [] 0 [] = Ok x.
+  (* whatever cells the row holds: none of them is in a column *)
+  Lemma zero_block dv cells : div3_ok dv -> exists x, rendered_block dv [] [] 0 cells = Ok x.
   Proof.
+    unfold rendered_block, row_to_lines. rewrite Nat.min_0_r. cbn [firstn map fold_left seq Nat.sub repeat app].
     destruct dv as [[l i] r]. intros [(Hl & Hi & Hr) | (-> & -> & ->)].
     - destruct l; [congruence|]. destruct i; [congruence|]. destruct r; [congruence|].
       cbn. eauto.
     - cbn. eauto.
   Qed.
 
-  Lemma zero_measure_rows rows :
-    Forall no_cells rows -> mapM (measure_opt W) rows = Ok (map (mrow_of W) rows).
+  Lemma zero_row_widths cs : row_widths 0 0 cs [] = Ok [].
+  Proof. destruct cs; reflexivity. Qed.
+
+  Lemma zero_body_widths rows : body_widths 0 rows [] = Ok [].
   Proof.
-    intros H. apply mapM_ok_map. intros r Hr. apply measure_opt_ok.
-    rewrite Forall_forall in H. destruct (H r Hr) as [-> | ->]; simpl; constructor.
+    induction rows as [|r rows IH]; [reflexivity|].
+    destruct r as [cs|]; cbn [body_widths]; [rewrite zero_row_widths; cbn [bind]|]; exact IH.
   Qed.
 
-  Lemma zero_body_widths rows :
-    Forall no_cells rows -> body_widths 0 (map (mrow_of W) rows) [] = Ok [].
+  Lemma zero_body_writes rows : exists ws, body_writes d [] [] 0 rows = Ok ws.
   Proof.
-    induction rows as [|r rows IH]; intros H; [reflexivity|].
-    inversion H as [|? ? H1 H2]; subst. destruct H1 as [-> | ->]; cbn; auto.
-  Qed.
-
-  Lemma zero_body_writes rows :
-    Forall no_cells rows -> exists ws, body_writes d [] [] 0 (map (mrow_of W) rows) = Ok ws.
-  Proof.
-    induction rows as [|r rows IH]; intros H; [cbn; eauto|].
-    inversion H as [|? ? H1 H2]; subst. destruct (IH H2) as (ws & E).
-    destruct H1 as [-> | ->]; cbn [map mrow_of option_map body_writes].
+    induction rows as [|r rows IH]; [cbn; eauto|].
+    destruct IH as (ws & E). destruct r as [cs|]; cbn [body_writes].
+    - destruct (zero_block (body_dividers d) cs) as (x & ->); [apply (dec_ok_div d Hd)|].
+      cbn [bind]. rewrite E. cbn. eauto.
     - unfold line_separator. destruct (zero_template (d_LeftBodyRule d) (d_HRule d) (d_CrossPiece d) (d_RightBodyRule d)) as (x & ->).
       cbn [bind]. rewrite E. cbn. eauto.
-    - cbn [map]. destruct (zero_block (body_dividers d)) as (x & ->); [apply (dec_ok_div d Hd)|].
-      cbn [bind]. rewrite E. cbn. eauto.
   Qed.
 
-  Lemma zero_ok v : wf_view v -> v_ncols v = 0 -> exists out, text_render W d v = Ok out.
+  Lemma zero_ok v :
+    length (v_align v) = S (v_ncols v) -> cells_ok W v -> v_ncols v = 0 ->
+    exists out, text_render W d v = Ok out.
   Proof.
-    intros Hwf E. destruct (zero_rows v Hwf E) as [Hrows Hhdr].
-    destruct Hwf as (_ & _ & Hal & _).
+    intros Hal Hc E.
     unfold text_render, text_render_writes.
     rewrite (dec_ok_not_empty d Hd).
     assert (Eh : measure_opt W (v_header v) = Ok (mrow_of W (v_header v))).
-    { apply measure_opt_ok. destruct Hhdr as [-> | ->]; simpl; constructor. }
-    rewrite Eh. cbn [bind]. rewrite (zero_measure_rows _ Hrows). cbn [bind].
+    { apply measure_opt_ok. destruct (v_header v) as [h|] eqn:Eh; [|exact I].
+      simpl. eapply cells_ok_header; eauto. }
+    rewrite Eh. cbn [bind].
+    assert (Er : mapM (measure_opt W) (v_rows v) = Ok (map (mrow_of W) (v_rows v))).
+    { apply mapM_ok_map. intros r Hr. apply measure_opt_ok.
+      pose proof (cells_ok_rows W v Hc) as X. rewrite Forall_forall in X. auto. }
+    rewrite Er. cbn [bind].
     rewrite E. cbn [repeat].
     assert (Ecw : match mrow_of W (v_header v) with Some hs => header_widths [] hs | None => [] end = []).
     { destruct (mrow_of W (v_header v)) as [[|? ?]|]; reflexivity. }
-    rewrite Ecw, (zero_body_widths _ Hrows). cbn [bind].
+    rewrite Ecw, zero_body_widths. cbn [bind].
     rewrite (column_aligns_ok v Hal), E. cbn [seq map bind].
-    destruct (zero_body_writes _ Hrows) as (ws & Eb). rewrite Eb.
+    destruct (zero_body_writes (map (mrow_of W) (v_rows v))) as (ws & Eb). rewrite Eb.
     unfold line_bottom.
     destruct (zero_template (d_BottomLeft d) (d_HOuter d) (d_BBottomUp d) (d_BottomRight d)) as (xb & ->).
-    destruct Hhdr as [-> | ->]; cbn [mrow_of option_map map].
-    - unfold line_body_top.
-      destruct (zero_template (d_TopLeft d) (d_HOuter d) (d_BTopDown d) (d_TopRight d)) as (xt & ->).
-      cbn. eauto.
+    destruct (mrow_of W (v_header v)) as [hs|].
     - unfold line_header_top, line_header_body_sep.
       destruct (zero_template (d_TopLeft d) (d_HOuter d) (d_HTopDown d) (d_TopRight d)) as (xt & ->).
       destruct (zero_template (d_HBLeft d) (d_HOuter d) (d_HBCross d) (d_HBRight d)) as (xs & ->).
-      destruct (zero_block (header_dividers d)) as (xh & ->); [apply (dec_ok_div d Hd)|].
+      destruct (zero_block (header_dividers d) hs) as (xh & ->); [apply (dec_ok_div d Hd)|].
+      cbn. eauto.
+    - unfold line_body_top.
+      destruct (zero_template (d_TopLeft d) (d_HOuter d) (d_BTopDown d) (d_TopRight d)) as (xt & ->).
       cbn. eauto.
   Qed.
 End Zero.
+
+(* Any column count, and rows / headers of any length (cells beyond the
+   column count are measured but neither widen a column nor are laid out):
+   the text renderer does not panic.  Needed of the view: one alignment slot
+   per column plus column 0; of the cells: the sizes Cell reports (>= 0). *)
+Theorem text_no_panic_any_rows : forall W d v,
+  length (v_align v) = S (v_ncols v) -> dec_ok d -> cells_ok W v -> text_render W d v <> Panic.
+Proof.
+  intros W d v Hal Hd Hc. destruct (v_ncols v) as [|n] eqn:E.
+  - destruct (zero_ok W d Hd v) as (out & ->); try assumption; [rewrite E; exact Hal | discriminate].
+  - rewrite (text_refines_any_rows W d v); try assumption; [discriminate | lia | rewrite E; exact Hal].
+Qed.
 
 (* zero columns: no cell, so no hypothesis about cells *)
 Theorem text_no_panic_zero : forall W d v,
   wf_view v -> dec_ok d -> v_ncols v = 0 -> text_render W d v <> Panic.
 Proof.
-  intros W d v Hwf Hd E. destruct (zero_ok W d Hd v Hwf E) as (out & ->). discriminate.
+  intros W d v Hwf Hd E. apply text_no_panic_any_rows; [apply Hwf | exact Hd | apply zero_no_cells; assumption].
 Qed.
 
 (* any column count *)
 Theorem text_no_panic_all : forall W d v,
   wf_view v -> dec_ok d -> cells_ok W v -> text_render W d v <> Panic.
 Proof.
-  intros W d v Hwf Hd Hc. destruct (v_ncols v) as [|n] eqn:E.
-  - apply text_no_panic_zero; assumption.
-  - apply no_panic_proof; try assumption. lia.
+  intros W d v Hwf Hd Hc. apply text_no_panic_any_rows; [apply Hwf | exact Hd | exact Hc].
 Qed.
